@@ -572,3 +572,27 @@ def rule_reported_difference_counted(ctx):
                     render(strip(nn[1]))[:70], first[:50]))
     ctx.floor("DIFFCOUNT", 4, n, "(difference-reporting branches in hdiff's comparison routines)")
     return n
+
+
+# ---------------------------------------------------------------------------------------------------------------------
+def rule_dump_record_major(ctx):
+    """RECMAJOR (C19): hdp's Vdata dump walks the buffer VSread filled record by record, field by field.  That is the layout
+    VSread produces for FULL_INTERLACE only; asking for the interlace the Vdata is stored with gives a field-major buffer for
+    NO_INTERLACE Vdatas and the dump then prints values under the wrong record and field."""
+    prog = ctx.prog
+    n = 0
+    for f in prog.funcs:
+        if "mfhdf/hdp/" not in f.rel:
+            continue
+        for _b, _i, _s, c in f.calls():
+            if c[1] != "VSread" or len(c[3]) < 4:
+                continue
+            n += 1
+            key = "RECMAJOR:%s#%d" % (f.name, n)
+            if is_int(c[3][3], 0):
+                ctx.holds("RECMAJOR", key, f.where(c[5]), "VSread(.., FULL_INTERLACE)", nontrivial=True)
+            else:
+                ctx.violated("RECMAJOR", key, f.where(c[5]), "VSread is asked for interlace `%s`, not FULL_INTERLACE, but the dump loop walks the buffer record by record: a NO_INTERLACE Vdata is printed "
+                             "with its values under the wrong records and fields" % render(c[3][3])[:30])
+    ctx.floor("RECMAJOR", 2, n, "(VSread calls in hdp)")
+    return n
